@@ -82,10 +82,27 @@ def scratch_root():
     global _scratch_root, _scratch_owner
     if _scratch_root is None:
         base = "/dev/shm" if os.path.isdir("/dev/shm") and os.access("/dev/shm", os.W_OK) else None
+        _remove_stale(base or tempfile.gettempdir())
         _scratch_root = tempfile.mkdtemp(prefix="traph-verif-%d-" % os.getpid(), dir=base)
         _scratch_owner = os.getpid()
         atexit.register(cleanup_scratch)
     return _scratch_root
+
+
+def _remove_stale(base):
+    """Scratch directories of runs that were killed (their creating process is gone)."""
+    try:
+        for name in os.listdir(base):
+            if not name.startswith("traph-verif-"):
+                continue
+            try:
+                pid = int(name.split("-")[2])
+            except (IndexError, ValueError):
+                continue
+            if not os.path.exists("/proc/%d" % pid):
+                shutil.rmtree(os.path.join(base, name), ignore_errors=True)
+    except OSError:
+        pass
 
 
 def cleanup_scratch():
